@@ -154,3 +154,26 @@ def run(ctx, rep) -> None:
     rep.check(okv, "C18.R4", "planning copies an own-only context value unchanged", "a list is rebuilt (item by item, without duplicates) only when the ancestor merge already has that key; otherwise merged[key] = value" if okv else
               "the overlay rebuilds list values that exist only in the stage's own context: equal entries of `_buffered_signals` (two identical persistent signals) collapse into one and a signal is lost",
               "src/stabilize/handlers/start_stage/planner.py", loop[0].lineno if loop else pl.lineno, disc="plan-verbatim")
+
+    # ---- R5: the resume message is not mistaken for a duplicate ---------------------------------------------------------
+    # RunTask keeps an in-process registry of executing task ids and drops a RunTask for a registered task. The entry is removed
+    # only after the result was committed - and that commit already contains the resume RunTask of a consumed signal. Dropping
+    # is right for a re-delivery of the SAME message; any other message for the task is its continuation.
+    rep.rule("C18.R5", "a RunTask for a task registered as executing is dropped only when it is the same message (redelivery); otherwise it is re-queued")
+    from ..dom import conditions_at
+    rh = prog.func("stabilize.handlers.run_task.handler", "RunTaskHandler.handle.on_task")
+    drops = []
+    for r_ in ast.walk(rh.node):
+        if isinstance(r_, ast.Return):
+            facts = conditions_at(rh.node, r_)
+            if any(t_ == "existing_start is None" and tr_ is False for t_, tr_ in facts) and any("stale_threshold_s" in t_ for t_, _ in facts):
+                drops.append((r_, facts))
+    rep.floor("duplicate-RunTask drop branches", len(drops), 1)
+    for r_, facts in drops:
+        ident = any("message_id" in t_ for t_, _ in facts)
+        blk_calls = [c_ for t2 in ast.walk(rh.node) if isinstance(t2, ast.If) and any(x is r_ for x in ast.walk(t2)) for c_ in ast.walk(t2) if isinstance(c_, ast.Call) and isinstance(c_.func, ast.Attribute) and c_.func.attr in ("push", "push_message")]
+        ok = ident or bool(blk_calls)
+        rep.check(ok, "C18.R5", "RunTask for an executing task: only a redelivery of the same message is dropped", "message identity compared / the message is re-queued" if ok else
+                  "every RunTask for a task id registered in _executing_tasks is dropped (return => marked processed and acked). The registry entry outlives the commit that pushes the resume RunTask of a consumed "
+                  "persistent signal, so another worker thread polling that resume inside the window discards it: the stage stays RUNNING/SUSPENDED with an empty queue and the signal's resume is lost",
+                  rh.file, r_.lineno, disc="resume-dropped-as-duplicate")
